@@ -162,6 +162,9 @@ async fn startup_udp<const N: usize>(config: &ServerConfig<SslConfig>, user_mana
         info!("Udp server shutdown");
         Ok(())
     } else {
+        if config.quic.is_none() {
+            bail!("mode {} requires a quic section", config.mode);
+        }
         let context: ServerContext<N> = ServerContext::init(config, user_manager.clone())?;
         super::startup_quic(context, config, |c| Ok(PayloadCodec::from(c))).await
     }
